@@ -126,8 +126,11 @@ type GenOpts struct {
 	Traces    bool // generate trace actions
 	Created   bool // generate Created(address) logs (for filter_ref graphs)
 	Decoys    bool
-	EmptyProb int  // percent of blocks with no transaction
-	MakeToken bool // block 1 creates TokenAddr (for references on block field log_addr)
+	EmptyProb int // percent of blocks with no transaction
+	// AlwaysTrace: every block above 0 has a transaction and every transaction at
+	// least one trace action (jrpc2.traces treats an empty trace_block result as an error)
+	AlwaysTrace bool
+	MakeToken   bool // block 1 creates TokenAddr (for references on block field log_addr)
 	// AddrBase separates the created addresses of different sources (reference
 	// lookups are not keyed by source: equal addresses on two chains would make
 	// the intended rows of one source depend on the progress of the other)
@@ -154,7 +157,7 @@ func (s *GenState) clone() *GenState {
 // GenBlock creates block num on fork tag.
 func GenBlock(r *lib.RNG, tag int, num uint64, parent []byte, o GenOpts, st *GenState) *Block {
 	b := &Block{Num: num, Tag: tag, Hash: HashBytes(tag, num), Parent: parent, Time: 1_600_000_000 + num*12 + uint64(tag)}
-	if num == 0 || r.Intn(100) < o.EmptyProb {
+	if num == 0 || (!o.AlwaysTrace && r.Intn(100) < o.EmptyProb) {
 		return b
 	}
 	ntx := r.Range(1, max(1, o.MaxTxs))
@@ -211,7 +214,11 @@ func GenBlock(r *lib.RNG, tag int, num uint64, parent []byte, o GenOpts, st *Gen
 			tx.Logs = append(tx.Logs, l)
 		}
 		if o.Traces {
-			for k := r.Intn(3); k > 0; k-- {
+			nta := r.Intn(3)
+			if o.AlwaysTrace {
+				nta = 1 + r.Intn(2)
+			}
+			for k := nta; k > 0; k-- {
 				tx.Traces = append(tx.Traces, &Trace{From: Addr(320 + r.Intn(3)), To: Addr(330 + r.Intn(3)),
 					Value: uint64(r.Intn(500)), CallType: "call"})
 			}
